@@ -769,6 +769,75 @@ def eval_statseq(ctx):
     return cases, specv
 
 
+# ------------------------------------------------------------------ `read` on a SHARED descriptor (differential)
+# "`read` consumes exactly one line from a shared descriptor": one to three `read` variants, then another consumer of
+# the same descriptor (cat, another read, an external `head -n 1`, a while-read loop); the descriptor is a file, a pipe,
+# a here-document, a here-string or fd 3. Whatever a read fetched beyond what it consumes would be missing further on.
+RD_DATA = ["ab\ncdef\nghij\nklmno pq\n", "one two  three\nx:y:z\n\nlast", "a\\tb\\\nc d\nefg\n", "12345\n67890\nabc\n",
+           "  lead trail  \nq;r;s\nzz\n", "x\n" * 40, "ab\n" + "0123456789" * 30 + "\nend\n"]
+RD_READS = ["read a", "read -r a", "read -n 5 a", "read -n 1 a", "read -n 3 -r a", "read -N 4 a", "read -N 7 a", "read -d ';' a",
+            "read -d : a", "read -r -a arr; a=\"${arr[*]}|${#arr[@]}\"", "read a b", "IFS=: read a b", "read -n 12 a",
+            "IFS= read -r a", "read -r -n 2 a", "read -d '' a", "read -u 0 a", "read -rn 4 a b", "read -r -n 16 a", "read -rN 2 a"]
+RD_CONS = ["cat", "read b; echo \"b=[$b]\"", "head -n 1", "IFS= read -r -n 3 b; echo \"b=[$b]\"; cat",
+           "while read -r l; do echo \"l=[$l]\"; done", "read -N 3 b; echo \"b=[$b]\"; cat", "read -r b; read -r c; echo \"b=[$b] c=[$c]\""]
+KF_READ_CONT = "KF-C11-read-continuation"
+
+
+def rd_script(rng, path):
+    d = rng.choice(RD_DATA)
+    reads = [rng.choice(RD_READS) for _ in range(rng.randrange(1, 4))]
+    body = "".join("%s; echo \"s=$? a=[$a] b=[$b]\"; " % r for r in reads) + rng.choice(RD_CONS)
+    src = rng.choice(["file", "pipe", "heredoc", "herestring", "fd3"])
+    e = octal(d.encode())
+    # class of KF-C11-read-continuation: backslash-newline in the data met by a read without -r that uses -N or -d
+    cont = "\\\n" in d and any(("-N" in r or "-d" in r) and " -r" not in r and "-rN" not in r
+                               for r in body.split("; ") if "read" in r)
+    if src == "file":
+        return "printf '%s' > %s; { %s; } < %s; rm -f %s" % (e, path, body, path, path), src, cont
+    if src == "pipe":
+        return "printf '%s' | { %s; }" % (e, body), src, cont
+    if src == "heredoc":
+        dd = d if d.endswith("\n") else d + "\n"
+        return "{ %s; } <<'EOT'\n%sEOT" % (body, dd), src, cont
+    if src == "herestring":
+        return "D=$(printf '%s'); { %s; } <<< \"$D\"" % (e, body), src, cont
+    b3 = body.replace("read ", "read -u 3 ").replace("read -u 3 -u 0", "read -u 3").replace("cat", "cat <&3").replace("head -n 1", "head -n 1 <&3")
+    return "printf '%s' > %s; exec 3< %s; %s; exec 3<&-; rm -f %s" % (e, path, path, b3, path), src, cont
+
+
+def eval_readseq(ctx):
+    import random
+    d = wd()
+    n = 600 if ctx.quick else 5000
+    seeds = [ctx.rng.randrange(1 << 30) for _ in range(n)]
+    cs = [rd_script(random.Random(sd), os.path.join(d, "rd_%d_c" % k)) for k, sd in enumerate(seeds)]
+    bs = [rd_script(random.Random(sd), os.path.join(d, "rd_%d_b" % k)) for k, sd in enumerate(seeds)]
+    # the directed ones of the statement: a capped read whose line is shorter than the cap, then line readers
+    for k, (data, body) in enumerate([
+            ("ab\ncdef\nghij\n", "read -n 5 first; read second; read third; echo \"first=$first second=$second third=$third\""),
+            ("id\nline one\nline two\n", "read -r -n 16 hdr; n=0; while read -r l; do n=$((n+1)); echo \"$n:$l\"; done; echo \"hdr=$hdr lines=$n\""),
+            ("ab\ncd\n", "read -n 9 a; cat"), ("ab\ncd\n", "read -n 9 a; head -n 1"), ("a;b;c\nd\n", "read -d ';' -n 9 a; echo \"[$a]\"; cat")]):
+        for src in ("pipe", "file"):
+            for tag, lst in (("c", cs), ("b", bs)):
+                pth = os.path.join(d, "rdd_%d_%s" % (k, tag))
+                e = octal(data.encode())
+                sc = "printf '%s' | { %s; }" % (e, body) if src == "pipe" else "printf '%s' > %s; { %s; } < %s; rm -f %s" % (e, pth, body, pth, pth)
+                lst.append((sc, src, False))
+    impl = ctx.impl("sh", [["s", c[0]] for c in cs])
+    bash = bash_batch([b[0] for b in bs])
+    specv, by_src = [], {}
+    for (sc, src, cont), il, bo in zip(cs, impl, bash):
+        by_src[src] = by_src.get(src, 0) + 1
+        o = sh_out(il)
+        got = o[1] if o else il.encode()[:200]
+        if got != bo:
+            v = {"input": {"script": sc}, "why": "after `read` the shared descriptor / the variables differ from bash: %r vs %r" % (got[-200:], bo[-200:])}
+            if cont:
+                v["known"] = KF_READ_CONT
+            specv.append(v)
+    return len(cs), by_src, specv
+
+
 # ------------------------------------------------------------------ fixed scenarios (bash parity only)
 SCENARIOS = [
     ("own-example", "seq 100000 | while read l; do echo $l; done | wc -l", False),
@@ -880,6 +949,7 @@ def run_(ctx):
     t2 = time.time()
     st_cases, st_model, st_mism, st_specv, vs_bash = eval_status(ctx)
     sq_cases, sq_specv = eval_statseq(ctx)
+    rd_n, rd_src, rd_specv = eval_readseq(ctx)
     t3 = time.time()
     raws, sp_model, sp_mism, sp_specv = eval_strip(ctx)
     t4 = time.time()
@@ -898,18 +968,19 @@ def run_(ctx):
     xs += crosscheck(ctx, "c11_status", [[str(pf), str(bg)] + [str(c) for c in cs] for pf, bg, cs in st_cases], st_model)
     xs += crosscheck(ctx, "c11_strip", [[enc_raw(r)] for r in raws], sp_model)
     mism = ev["mism"] + pv_mism + st_mism + sp_mism
-    specv = ev["specv"] + pv_specv + st_specv + sq_specv + sp_specv + scen_specv
+    specv = ev["specv"] + pv_specv + st_specv + sq_specv + rd_specv + sp_specv + scen_specv
     ctx.notes.append("wall: sched %.0fs, pause variants %.0fs, status %.0fs, strip %.0fs, scenarios %.0fs, vm_compute cross-check %.0fs" % (
         t1 - t0, t2 - t1, t3 - t2, t4 - t3, t5 - t4, time.time() - t5))
     nontriv = {repr(c) for c in sched_cases if flow(c)[0][2] > 0} | \
               {repr(c) for c in st_cases if len(c[2]) > 1} | {r for r in raws if r.endswith(b"\n")}
-    ev["dist"].update({"status_sequences_in_one_shell": len(sq_cases),
+    ev["dist"].update({"status_sequences_in_one_shell": len(sq_cases), "read_on_shared_descriptor": rd_n,
+                       "read_descriptor_kinds": rd_src,
                        "proof_backed": "sched (model+theorems+correspondence), status vectors, substitution strip",
-                       "differential_only": "status sequences in one shell (code vs bash, python rule for `$?`), fixed scenarios",
+                       "differential_only": "status sequences in one shell (code vs bash, python rule for `$?`), `read` variants on a shared descriptor (code vs bash), fixed scenarios",
                        "status_cases": len(st_cases), "strip_cases": len(raws), "scenarios": scen,
                        "pause_variant_runs": pv_n, "pause_configs": PAUSES})
     return {
-        "evaluations": len(sched_cases) + pv_n + len(st_cases) + len(sq_cases) + len(raws) + len(SCENARIOS),
+        "evaluations": len(sched_cases) + pv_n + len(st_cases) + len(sq_cases) + rd_n + len(raws) + len(SCENARIOS),
         "distinct_nontrivial": len(nontriv),
         "rule": "sched: pipelines of 2-4 stages at process level, each stage (behaviour, form) with behaviour in {source n, cat, head k, "
                 "drop d, read-one-line, sink} and form in {external, builtin, function, brace group, subshell, while/for-read loop}; "
